@@ -133,7 +133,42 @@ def r142(db, ctx):
     bm = [(bi, t) for bi, t in f.calls() if (f.callee_short(t) or '').endswith('parse::build_matrix')]
     ok = False
     why = ''
-    if len(order) == 4 and len(bm) == 1:
+    if len(order) == 0 and len(bm) == 1:
+        # combinator form: `tuple((matrix_column, matrix_column, matrix_column, matrix_column))(input)` applies its parsers in order, so
+        # field k of its result is the k-th row of the file
+        arr = norm(R.operand(bm[0][1]['args'][0]))
+        syms = R.operand(bm[0][1]['args'][1])
+        lit = next((x[2] for x in X.walk(arr) if x[0] == 'agg' and x[1] == 'array' and len(x[2]) == 4), None)
+        names = []
+        for x in X.walk(syms):
+            if x[0] == 'promoted':
+                try:
+                    names = [(tables.enum_variant(el) or (None, None))[1] for el in tables.promoted_array(db, f.path, x[2])]
+                except tables.NotTabulable:
+                    pass
+        fields_ok = False
+        if lit:
+            bases = {op[1] for op in lit if op[0] == 'fld'}
+            fields_ok = len(bases) == 1 and [str(op[2]) for op in lit if op[0] == 'fld'] == ['0', '1', '2', '3']
+            if fields_ok:
+                base = next(iter(bases))
+                parsers = None
+                for x in X.walk(base):
+                    if x[0] == 'call' and 'nom::sequence::tuple' in x[1]:
+                        for y in X.walk(x):
+                            if y[0] == 'agg' and y[1] == 'tuple' and len(y[2]) == 4 and all(z[0] == 'fnitem' for z in y[2]):
+                                parsers = y[2]
+                        for a_ in x[2]:
+                            if a_[0] == 'v':
+                                for bi_, si_, d_ in f.defs().get(a_[1], []):
+                                    v_ = norm(R.call(d_) if si_ == 'term' else R.rvalue(d_))
+                                    for y in X.walk(v_):
+                                        if y[0] == 'agg' and y[1] == 'tuple' and len(y[2]) == 4 and all(z[0] == 'fnitem' for z in y[2]):
+                                            parsers = y[2]
+                fields_ok = parsers is not None and all(z[1].endswith('parse::matrix_column') for z in parsers)
+        ok = bool(fields_ok and names == ['A', 'C', 'G', 'T'])
+        why = f'tuple form: fields in order / four matrix_column parsers = {fields_ok}, symbols {names}'
+    elif len(order) == 4 and len(bm) == 1:
         arr = norm(R.operand(bm[0][1]['args'][0]))
         syms = R.operand(bm[0][1]['args'][1])
         # array literal operands
